@@ -28,6 +28,7 @@ FIXED = [
   ("C15", "regress/C15/F12-temp-file-leak.json", "fix: remove the temporary file of update/remove", "every update/remove leaves a temporary file behind"),
   ("C06", "regress/C06/F13-aborted-insert-multiple-stale-index.json", "fix: an aborted insert_multiple", "insert_multiple aborted by a raising iterable leaves an empty index flagged valid (auto_index off)"),
   ("C11", "regress/C11/F14-memory-update-half-applied.json", "fix: a failed update() restores", "memory storage: an update whose callable fails at the k-th point leaves the earlier points modified"),
+  ("C11", "regress/C11/F14b-memory-update-interrupted.json", "fix: a failed update() restores", "memory storage: an update interrupted by a BaseException (KeyboardInterrupt style) in a callable leaves earlier points modified"),
   ("C14", "regress/C14/F16-callable-result-unvalidated.json", "fix: validate the tag and field sets returned", "a tags/fields callable returning a mapping with an ill-typed entry is accepted"),
   ("C14", "regress/C14/F23-insert-mutated-point.json", "fix: insert() validates the tag and field sets", "insert accepts a Point whose tag/field dict was mutated to hold an ill-typed value"),
   ("C08", "regress/C08/F15-update-time-not-normalised.json", "fix: update(time=...) converts the new time to UTC", "update(time=...) stores non-UTC / naive datetimes as they are"),
